@@ -235,7 +235,12 @@ class Spec(EvalableModel):
         try:
             if not getattr(self, "_evaluated", False):
                 self = self._spec_eval_expressions(einsum_name=einsum_name)
+                calculated = {}
             else:
+                calculated = {
+                    k: set(v)
+                    for k, v in getattr(self, "_costs_calculated", {}).items()
+                }
                 self = self.model_copy()
                 self.arch = self.arch.model_copy(deep=True)
         except EvaluationError as e:
@@ -261,27 +266,35 @@ class Spec(EvalableModel):
             c = leaf
             prev_log = list(c.component_modeling_log)
             c.component_modeling_log.clear()
-            if area:
+            # Costs that were already calculated hold their final (scaled) values;
+            # calculating them again would apply the scale factors a second time.
+            done = calculated.setdefault(leaf.name, set())
+            if area and "area" not in done:
                 c = c.calculate_area(models)
                 orig.area = c.area
                 orig.total_area = c.area * global_fanout
-            if energy:
+                done.add("area")
+            if energy and "energy" not in done:
                 c = c.calculate_action_energy(models)
                 for a in c.actions:
                     orig_action = orig.actions[a.name]
                     orig_action.energy = a.energy
-            if throughput:
+                done.add("energy")
+            if throughput and "throughput" not in done:
                 c = c.calculate_action_throughput(models)
                 for a in c.actions:
                     orig_action = orig.actions[a.name]
                     orig_action.throughput = a.throughput
-            if leak:
+                done.add("throughput")
+            if leak and "leak" not in done:
                 c = c.calculate_leak_power(models)
                 orig.leak_power = c.leak_power
                 orig.total_leak_power = c.leak_power * global_fanout
+                done.add("leak")
             orig.component_modeling_log = prev_log + c.component_modeling_log
             orig.component_model = c.component_model
 
+        self._costs_calculated = calculated
         return self
 
     def _get_flattened_architecture(
